@@ -39,7 +39,8 @@ RULE = ("(1) sweep: every grammar of the classes 2x2 (non-terminals A,B, termina
         "productions object of a grammar is, depending on its index, a new dict (7/16), the SAME dict object as the "
         "grammar constructed before it, emptied and refilled (4/16), the same dict and the same list objects edited by "
         "slice assignment (3/16), a new dict holding the previous list objects (1/16), or a dict created after the "
-        "previous one was dropped (1/16: CPython hands out the same id() again); every fourth index the parser "
+        "previous one was dropped (1/16: CPython hands out the same id() again), and every fourth run of 32 "
+        "consecutive calls keeps one dict object throughout; every fourth index the parser "
         "accepted last parses its inputs once more after the later constructor call.  'hist' cases: 3-7 calls on "
         "related larger grammars (small edits biased to add or remove a zero-token cycle: add / delete an "
         "alternative, put a terminal in front / take it away, toggle an empty alternative, replace a symbol, rename "
@@ -408,7 +409,7 @@ def gen_cases(rng, tier):
     for _ in range(2000 if big else 150):
         cases.append(_full_case(rng, L.gen_grammar(rng, allow_leftrec=0.25), 8))
     # (3) histories of constructor calls in one process
-    for _ in range(2500 if big else 150):
+    for _ in range(1500 if big else 150):
         cases.append(gen_history(rng))
     # the implementation runner cuts the case list into consecutive shards: spread the (expensive) sweep chunks
     rng.shuffle(cases)
@@ -477,6 +478,17 @@ def _mk_pd(prods):
     return {nt: [tuple(a) if a else None for a in alts] for nt, alts in prods}
 
 
+def _snapshot(pd):
+    """contents of a productions object as the case format"""
+    return [[nt, [list(a) if a else [] for a in alts]] for nt, alts in pd.items()]
+
+
+def _step_prods(st, o):
+    """the productions a call of a history was made with: those of the case, unless the object (passed 'again'
+    untouched by the harness) had been altered by an earlier constructor call"""
+    return o.get("snap", st["prods"]) if isinstance(o, dict) else st["prods"]
+
+
 class _Objects:
     """the productions objects of the constructor calls made so far in one history"""
 
@@ -529,7 +541,9 @@ class _Objects:
             self.pd = cand
         else:
             raise ValueError(mode)
-        if [[nt, [list(a) if a else [] for a in alts]] for nt, alts in self.pd.items()] != [[nt, [list(a) for a in alts]] for nt, alts in prods]:
+        # ('again': the harness does not touch the object; should an earlier constructor call have altered it, the
+        # call is judged on what the object holds now, see _snapshot)
+        if mode != "again" and _snapshot(self.pd) != [[nt, [list(a) for a in alts]] for nt, alts in prods]:
             raise RuntimeError("harness error: the productions object does not have the contents of the case")
         return self.pd
 
@@ -552,12 +566,16 @@ def _ctor(llparser, terms, prods, start, smart):
     return _ctor_pd(llparser, terms, _mk_pd(prods), start, smart)
 
 
-def sweep_mode(idx):
-    """how the productions object of the grammar with this index is related to the object of the grammar that was
-    constructed before it in the same chunk (all grammars of a class use the same symbol names)"""
+def sweep_mode(idx, pos=0):
+    """how the productions object of the grammar with this index (at this position of its chunk) is related to the
+    object of the grammar that was constructed before it in the same chunk (all grammars of a class use the same
+    symbol names).  Every fourth run of 32 consecutive calls keeps ONE dict object throughout."""
     h = ((idx * 2654435761 + 977) >> 7) % 16
-    return ("fresh", "fresh", "fresh", "fresh", "fresh", "fresh", "fresh", "same", "same", "same", "same",
+    mode = ("fresh", "fresh", "fresh", "fresh", "fresh", "fresh", "fresh", "same", "same", "same", "same",
             "inner", "inner", "inner", "shallow", "reuse")[h]
+    if (pos // 32) % 4 == 3 and mode in ("fresh", "shallow", "reuse"):
+        mode = "same" if h % 2 else "inner"
+    return mode
 
 
 def _parse_all(p, llparser, inputs, budget, hangs_left):
@@ -581,14 +599,17 @@ def _run_history(case, llparser):
     steps, parsers, hangs_left = [], [], 1      # after the first confirmed hang no further parse of the history is run
     for st in case["steps"]:
         # (no local name for the object: a 'reuse' step needs the previous object to be really dead)
-        p, err = _ctor_pd(llparser, case["terms"], objs.next(st["mode"], st["prods"]), st["start"], st["smart"])
+        snap = _snapshot(objs.next(st["mode"], st["prods"]))
+        p, err = _ctor_pd(llparser, case["terms"], objs.pd, st["start"], st["smart"])
         parsers.append(p)
         if p is None:
             steps.append({"ctor": ["err", err]})
-            continue
-        res, hung = _parse_all(p, llparser, st["inputs"], PARSE_BUDGET_FULL, hangs_left)
-        hangs_left -= hung
-        steps.append({"ctor": ["ok"], "amb": bool(p.is_ambiguous()), "res": res})
+        else:
+            res, hung = _parse_all(p, llparser, st["inputs"], PARSE_BUDGET_FULL, hangs_left)
+            hangs_left -= hung
+            steps.append({"ctor": ["ok"], "amb": bool(p.is_ambiguous()), "res": res})
+        if snap != st["prods"]:
+            steps[-1]["snap"] = snap
     # every accepted parser once more, after all the other constructor calls (and after the edits of the objects)
     late = []
     for st, p in zip(case["steps"], parsers):
@@ -622,13 +643,13 @@ def impl_run(case):
                     hangs.append({"idx": idx, "inp": inp, "err": r[1], "late": late})
                     return
 
-        for idx in _chunk_indices(case):
+        for pos, idx in enumerate(_chunk_indices(case)):
             prods, start, smart = cls.grammar(idx)
             ref.append("1" if L.ref_left_recursive(_prods_dict(prods)) else "0")
             if ctor_hangs >= MAX_HANGS:
                 out.append("?")          # not run: the constructor hung MAX_HANGS times in this chunk already
                 continue
-            p, err = _ctor_pd(llparser, cls.terms, objs.next(sweep_mode(idx), prods), start, smart)
+            p, err = _ctor_pd(llparser, cls.terms, objs.next(sweep_mode(idx, pos), prods), start, smart)
             if prev is not None and idx % 4 == 0 and len(hangs) < MAX_HANGS:
                 parse_inputs(prev[0], prev[1], idx)
             if p is None:
@@ -679,11 +700,12 @@ def coq_case(case, obs):
         return f"Ctors {SX.clist(L.coq_sym(t) for t in cls.terms)} {SX.clist(items)}"
     if case["k"] == "hist":
         calls = []
-        for st in case["steps"]:
+        obs_steps = obs["steps"] if isinstance(obs, dict) and "steps" in obs else [None] * len(case["steps"])
+        for st, o in zip(case["steps"], obs_steps):
             inputs = SX.clist(
                 (SX.clist("(" + L.coq_sym(n) + ", " + SX.cstr(v) + ")" for n, v in inp) if inp else "(@nil (list Z * list Z))")
                 for inp in st["inputs"]) if st["inputs"] else "(@nil (list (list Z * list Z)))"
-            calls.append(f"({_coq_ug(st['prods'])}, {SX.cbool(st['smart'])}, {L.coq_sym(st['start'])}, {inputs})")
+            calls.append(f"({_coq_ug(_step_prods(st, o))}, {SX.cbool(st['smart'])}, {L.coq_sym(st['start'])}, {inputs})")
         return f"Session {SX.clist(L.coq_sym(t) for t in case['terms'])} {L.FUEL}%nat {SX.clist(calls)}"
     return L.coq_case(case, obs)
 
@@ -751,7 +773,7 @@ def oracle(case, obs):
                 if w != got and got != "?":
                     prods, start, smart = cls.grammar(idxs[pos])
                     desc = f"class {cls.name} index {idxs[pos]}: productions {prods} start {start} smart={smart}"
-                    mode = sweep_mode(idxs[pos])
+                    mode = sweep_mode(idxs[pos], pos)
                     if mode != "fresh" and pos > 0:
                         desc += (f" (productions object: '{mode}' with respect to the object of the call before, which "
                                  f"held {cls.grammar(idxs[pos - 1])[0]}, outcome '{o[pos - 1]}')")
@@ -810,13 +832,14 @@ def oracle(case, obs):
 def _oracle_history(case, obs):
     """every call of the history is judged on the contents of ITS productions at the time of the call"""
     out = []
-    recs = [L.ref_left_recursive(_prods_dict(st["prods"])) for st in case["steps"]]
+    used = [_step_prods(st, o) for st, o in zip(case["steps"], obs["steps"])]
+    recs = [L.ref_left_recursive(_prods_dict(pr)) for pr in used]
     STATS["hist"] += 1
     STATS["hist_calls"] += len(recs)
     STATS["hist_reused_ids"] += obs.get("reused", 0)
     for k, (st, o, rec) in enumerate(zip(case["steps"], obs["steps"], recs)):
         before = ", ".join(f"{j}:{s2['mode']}:{'leftrec' if recs[j] else 'ok'}" for j, s2 in enumerate(case["steps"][:k]))
-        desc = (f"call {k} of a history (object: '{st['mode']}'; calls before: [{before}]): productions {st['prods']} "
+        desc = (f"call {k} of a history (object: '{st['mode']}'; calls before: [{before}]): productions {used[k]} "
                 f"start {st['start']} smart={st['smart']}")
         if k and st["mode"] != "fresh" and rec != recs[k - 1]:
             STATS["hist_flips_shared_object"] += 1
